@@ -243,6 +243,14 @@ func main() {
 	if *out != "" {
 		crumbFile, _ = os.OpenFile(*out+".current", os.O_CREATE|os.O_RDWR|os.O_TRUNC, 0o644)
 	}
+	if env.Replay != "" {
+		if st := genericReplay(env); st >= 0 {
+			if env.Model != nil {
+				env.Model.Close()
+			}
+			os.Exit(st)
+		}
+	}
 	start := time.Now()
 	err := f(env)
 	if crumbFile != nil {
